@@ -11,7 +11,7 @@ for d in seeded/${1:-}*/; do
   git -C /repo apply /verif/$d/patch.diff || { echo "$n: patch does not apply"; fail=1; continue; }
   VERIF_NO_EVIDENCE=1 ./bin/check $p quick > /tmp/seeded_regress.out 2>&1; rc=$?
   git -C /repo checkout -- .
-  echo "$n: $p exit $rc $(grep -m1 '^violation:' /tmp/seeded_regress.out | cut -c1-140)"
+  echo "$n: $p exit $rc $(grep -o "violations=[0-9]*" /tmp/seeded_regress.out | tail -1) $(grep -m1 "^violation:" /tmp/seeded_regress.out | cut -c1-110)"
   [ $rc -eq 1 ] || fail=1
 done
 rm -rf /verif/replays /tmp/seeded_regress.out
